@@ -782,6 +782,24 @@ def config_part(ctx, root):
             c["cfg"][where][0]["hooks"] = ["h0", names[0]]
             c["idx"] = len(cases)
             cases.append(c)
+    # the two limits of get_hook_rec (nesting depth, budget of visited members) met exactly, one below and
+    # above: py/ext/depthlim.py (the far-above sizes and the groups of empty groups that hang are C19's)
+    from ext import depthlim
+    D, M, _ = depthlim.consts(gen.gen_consts())
+    for fam in depthlim.hook_families(D, M, "h0", deep=False):
+        if "isolated" in fam["tags"]:
+            continue
+        for where in ("certificate", "account"):
+            c = gen_config_case(random.Random(11), 0)
+            c["cfg"]["group"] = fam["groups"]
+            for cc in c["cfg"]["certificate"]:
+                cc["hooks"] = ["h0"]
+            for a in c["cfg"]["account"]:
+                a["hooks"] = ["h1"]
+            c["cfg"][where][0]["hooks"] = ["h1", fam["top"]]
+            c["idx"] = len(cases)
+            cases.append(c)
+            ctx.count("config:limits:%s:%s" % (fam["label"], fam["expect"]))
     cases += [dict(c["case"], idx=len(cases) + i) for i, c in enumerate(vlib.corpus("C10")) if c.get("part") == "config"]
     ops, texts = [], []
     for c in cases:
